@@ -739,17 +739,7 @@ fn s3_over(size: usize, space: &'static str, decls: Decls, tys: Vec<Ty>) -> Vec<
                     ]);
                     let prog = Program { decls: d.clone(), ..Default::default() };
                     let desc = format!("S3w/size{size}/ty#{ti} {} path#{pi}", t.print(&d));
-                    let mut c = finish(desc, space, prog, body);
-                    // Recorded finding (DESIGN.md 9.3): a struct whose only field is a b256/u256,
-                    // copied and mutated member-wise, is miscompiled in release builds when the
-                    // package also holds the sibling S3 case of the same shape (fn-dedup-release
-                    // takes part; a, b and c end up sharing storage). Batch-dependent by nature.
-                    if let Ty::Struct(si) = &t {
-                        if d.structs[*si].fields.len() == 1 && matches!(d.structs[*si].fields[0].1, Ty::B256 | Ty::U256) {
-                            c.known_class = Some("release-struct-copy-aliasing-with-deduped-sibling");
-                        }
-                    }
-                    out.push(c);
+                    out.push(finish(desc, space, prog, body));
                 }
             }
         }
